@@ -32,6 +32,12 @@ pub struct LdapConn {
 }
 
 impl LdapConn {
+    #[cfg(ldap3_verif)]
+    /// Verification hook: wrap an existing runtime and handle.
+    pub fn verif_from_parts(rt: Runtime, ldap: Ldap) -> Self {
+        LdapConn { rt, ldap }
+    }
+
     /// Open a connection to an LDAP server specified by `url`.
     ///
     /// See [LdapConnAsync::new()](struct.LdapConnAsync.html#method.new) for the
